@@ -199,6 +199,23 @@ CHECKS = {
         "watchdog; single-hop redirects and stored spellings only.",
         "DESIGN.md 5/C17",
     ),
+    "C12": (
+        "exploration",
+        "property-based testing: Hypothesis-generated export dumps (own XML "
+        "writer, bz2) ingested through process_dump / parse_dump_xml and "
+        "compared as maps with a reference model of the statement's "
+        "selection rules",
+        "Generated dumps over all namespaces of the language data, hostile "
+        "titles and bodies (XML specials, CDATA look-alikes, whitespace, CR, "
+        "astral characters), redirects, nine content models, duplicates and "
+        "inclusion-control wrappers are ingested with a generated namespace "
+        "selection; the stored (title, ns) -> (body, redirect, model) map "
+        "must equal the reference map in both directions. Sampled search.",
+        "Trusts the harness XML writer (xml.sax escaping), lxml and bz2; "
+        "titles carry the correct local prefix; en (quick) / en, fr, zh "
+        "(thorough).",
+        "DESIGN.md 5/C12",
+    ),
 }
 
 NOT_YET = "check not built yet in this round (planned in DESIGN.md section 5)"
